@@ -152,7 +152,15 @@ def run_property(prop, tier, seed, args):
     # bounded stand-ins on the real code
     bounded = []
     if hasattr(mod, "bounded") and not args.no_bounded and args.only is None:
-        for b in mod.bounded(tier, seed):
+        try:
+            bres = list(mod.bounded(tier, seed))
+        except Exception as e:   # the real code could not even be driven (e.g. the interpreter fails to start on this tree)
+            import traceback
+            tb = traceback.format_exc().strip().splitlines()
+            bres = [BoundedResult("bounded stand-in could not run on this tree", "n/a", 1, 1,
+                                  [{"id": "bounded:harness-could-not-drive-the-real-code", "input": "constructing/driving the interpreter of this tree",
+                                    "observed": f"{type(e).__name__}: {e} ({tb[-3] if len(tb) > 2 else ''})", "expected": "the stand-in runs"}])]
+        for b in bres:
             bounded.append(b)
             seen_ids = set()
             for f in b.failures:
